@@ -160,7 +160,11 @@ def law_constructor(ctx, which):
         elif which == 'cutoff':
             r, l = P('release', True), P('level')
             data['replay']['names'] = ['release', 'level']
-            chk(E.cutoff(r, l), [l, 0], [r], 'lin', 0)
+            # an exponential release cannot reach zero: it ends at -100 dB, whatever name the shape is given by
+            cv = CUTOFF_CURVES[ctx.choose('cutoff_curve', len(CUTOFF_CURVES))]
+            data['replay']['cutoff_curve'] = cv
+            end = 1e-05 if cv in ('exp', 'exponential') else 0
+            chk(E.cutoff(r, l, cv), [l, end], [r], cv, 0)
         elif which == 'step':
             l0, l1, t0, t1 = P('l0'), P('l1'), P('t0', True), P('t1', True)
             data['replay']['names'] = ['l0', 'l1', 't0', 't1']
@@ -189,6 +193,7 @@ def law_constructor(ctx, which):
     return {'law': 'constructor', 'which': which}
 
 
+CUTOFF_CURVES = ['lin', 'exp', 'exponential', 'sin', 'linear']
 CONSTRUCTORS = ['triangle', 'sine', 'perc', 'linen', 'adsr', 'dadsr', 'asr', 'cutoff', 'step', 'pairs', 'xyc']
 
 
@@ -375,7 +380,9 @@ def replay(rec):
                 e = E.asr(g('attack'), g('sus'), g('release'), g('curve'))
                 L, T = [0, g('sus'), 0], [g('attack'), g('release')]
             elif w == 'cutoff':
-                e, L, T = E.cutoff(g('release'), g('level')), [g('level'), 0], [g('release')]
+                cv = rec.get('cutoff_curve', 'lin')
+                e, L, T = E.cutoff(g('release'), g('level'), cv), [g('level'), 1e-05 if cv in ('exp', 'exponential') else 0], \
+                    [g('release')]
             elif w == 'step':
                 if rec.get('rel'):
                     e = E.step([g('l0'), g('l1')], [g('t0'), g('t1')], 1)
